@@ -312,7 +312,7 @@ pub fn run(ctx: &mut Ctx) -> (&'static str, String, bool) {
         json!(fields.iter().map(|f| format!("{}.{} {}-bit unit={}ms{}", f.kind, f.name, f.bytes * 8, f.unit, if f.pinned { "" } else { " (unit unpinned: library's own)" })).collect::<Vec<_>>()),
     );
     let thorough = ctx.tier == Tier::Thorough;
-    let n32 = ctx.tier.pick(40_000u64, 1_000_000u64);
+    let n32 = ctx.tier.pick(100_000u64, 3_000_000u64);
     let base_rng = ctx.rng.fork(15);
     let parts: Vec<Part> = fields
         .par_iter()
